@@ -616,7 +616,7 @@ def write_manifest():
                 "engine": "+".join(s["engines"]),
                 "level_claimed": {"category": s["level"], "text": s.get("level_text", LEVEL_TEXT), "design_ref": f"DESIGN.md section 5, {pid}"},
                 "level_note": s.get("level_note", LEVEL_NOTE),
-                "technique": s.get("technique", "runtime monitoring: belief monitor over a specification model, observing the real engines on generated histories (virtual clock)"),
+                "technique": s.get("technique", TECHNIQUE.get(pid, "runtime monitoring: belief monitor over a specification model, observing the real code on generated histories (virtual clock)")),
             })
         else:
             na.append({"property_id": pid, "reason": NOT_CLAIMED.get(pid, "monitor for this property is still under construction in this commit (see DESIGN.md section 5); it is applicable to the technique")})
@@ -631,7 +631,16 @@ def write_manifest():
             "add_only": True,
         },
         "engines": [
-            {"name": "l1", "path": "harness/l1", "serves_properties": [p for p in PROPS if "l1" in PROPS[p]["engines"]], "kind_free_text": "sequential core-level monitor: real engines + harness-owned storage + virtual clock vs specification model"},
+            {"name": n, "path": pth, "serves_properties": [p for p in PROPS if n in PROPS[p]["engines"]], "kind_free_text": txt}
+            for (n, pth, txt) in [
+                ("l1", "harness/l1", "l1mon: sequential monitor at core level - real engines with harness-owned storage on a virtual clock vs the specification model (belief monitor)"),
+                ("l2", "harness/l2 (bin l2mon) + harness/corpus", "l2mon: sequential monitor at macro level over a generated corpus of #[cache]/#[cache_async] functions; scripted bodies, predicates and checks; key listing; stats; hand-polled futures"),
+                ("key", "harness/l2 (bin keymon)", "keymon: adversarial argument pairs, fresh serial per execution, on 46 signature shapes x 2 macros"),
+                ("conc", "harness/l2 (bin concmon) + harness/vmon/src/lockmon.rs + vendor/lock_api", "concmon: serial randomised scheduler and free-running jitter driven from a hooked lock_api; deadlock = no enabled thread / wait-for cycle; quiescence probes; history checks"),
+                ("bad", "harness/badcorpus", "compile oracle: invalid attribute lists must fail cargo check, corrected twins must pass, the corpus must build"),
+                ("miri", "harness/miriprogs", "thorough tier: three small programs under Miri with many scheduler seeds"),
+                ("tsan", "harness/l2 (bin concmon, feature noclock)", "thorough tier: jitter workload rebuilt with ThreadSanitizer"),
+            ]
         ],
         "checks": checks,
         "not_applicable": na,
@@ -640,6 +649,19 @@ def write_manifest():
     json.dump(man, open(os.path.join(ROOT, "MANIFEST.json"), "w"), indent=1)
     print("wrote MANIFEST.json:", len(checks), "checks,", len(na), "not claimed")
 
+
+TECHNIQUE = {
+    "C02": "runtime monitoring: collision oracle (fresh serial per execution) over adversarial argument pairs; learned key map must stay injective",
+    "C03": "runtime monitoring: execution-count oracle on sequential histories; offline history checker (no execution after a storing call returned) over recorded concurrent call/return events",
+    "C09": "runtime monitoring: scripted Ok/Err bodies vs wrapper model; offline history checker under the serial scheduler",
+    "C12": "runtime monitoring: registry model over generated metadata in many short-lived processes; unique-value history rule under the serial scheduler",
+    "C14": "runtime monitoring: per-thread belief monitors; shared-cache history checker; single-thread counterfactual replay",
+    "C15": "runtime monitoring: exact counter comparison after every operation; conservation law at quiescence after concurrent phases",
+    "C17": "runtime monitoring: serial randomised scheduler on a hooked lock_api (deadlock = no enabled thread) + free-running jitter with wait-for-cycle diagnosis; Miri many-seeds in the thorough tier",
+    "C18": "runtime monitoring: concurrent phases under the serial scheduler / jitter, then value checks, quiescence bounds and eviction/expiry/invalidation probes; Miri and ThreadSanitizer in the thorough tier",
+    "C19": "translation validation by differential execution: generated corpus vs model configured from the generator's record (L2) against the same model at core level (L1); compile oracle for invalid attribute lists",
+    "C20": "runtime monitoring: hand-polled futures; lock-held-at-Pending check from the hooked lock_api; model of a call that has only performed its lookup; Miri in the thorough tier",
+}
 
 LEVEL_TEXT = ("Exploration: an oracle observes executions of the real code under generated workloads; the property held on every execution observed "
               "(counts in the evidence file). Universality over inputs/histories/schedules is sampled, not proved - the right level for behavioural "
